@@ -166,7 +166,9 @@ def prop_ledger(sh, case):
         want = []
         for e in entries:
             if isinstance(e, cls):
-                want.append({c: getattr(e, ren.get(c, c)) for c in conn.tables[name].columns})
+                # the oracle is the directive: every column named like one of its attributes must equal it (a column that
+                # corresponds to no attribute has no oracle and is listed under columns_without_oracle)
+                want.append({c: getattr(e, ren.get(c, c)) for c in conn.tables[name].columns if hasattr(e, ren.get(c, c))})
         compare_table(conn, name, want, fails, sh)
     oc = getters.get_account_open_close(entries)
     compare_table(conn, 'accounts', [{'account': a, 'open': o, 'close': c} for a, (o, c) in oc.items()], fails, sh)
